@@ -282,7 +282,7 @@ class Runner:
     def emit_net(self, conn: DeviceConn, kind: str, delay: float | None = 0.0) -> bool:
         """Make the device side produce a network-level event. Returns False when not applicable."""
         noise = conn.noise
-        ready = (not noise) or (conn.resp is not None and conn.resp.tx is not None)
+        ready = conn.can_send_encrypted()
         self.last_emitted = "raw"
         if kind == "eof":
             conn.eof(delay)
@@ -373,6 +373,14 @@ class Runner:
                         conn.send("GetTimeRequest")
                     elif item == "ping_req":
                         conn.send("PingRequest")
+                    elif item == "dinfo":
+                        conn.send("DeviceInfoResponse", name="dev")
+                    elif item == "ldone":
+                        conn.send("ListEntitiesDoneResponse")
+                    elif item == "dresp":
+                        conn.send("DisconnectResponse")
+                    elif item == "pong":
+                        conn.send("PingResponse")
                     else:
                         ok = self.emit_net(conn, item, delay=None) and ok
                 out, conn.outbox = conn.outbox, None
